@@ -35,7 +35,7 @@ EXHAUSTIVE = {"quick": "all 11^4 = 14641 histories of length 4 over the 8-event 
               "thorough": "all 11^6 = 1771561 histories of length 6 over the 8-event + 3-timing alphabet, each with and without a second filtered listener"}
 
 W = [0xFFFF, 0xFF, 0xFFFFFFFF]
-SERVICES = [(s, i, m, n) for s in (0x1000, 0x2000) for i in (1, 2) for m in (1, 2) for n in (0,)] + [(0x1000, 1, 1, 7)]
+SERVICES = [(s, i, m, n) for s in (0x1000, 0x2000) for i in (0x0101, 0x0102) for m in (1, 2) for n in (0x10000,)] + [(0x1000, 0x0101, 1, 0x10007)]
 INF = 0xFFFFFF
 
 # ----------------------------------------------------------------------------- enumeration
@@ -81,7 +81,7 @@ def enum_case(tier, idx):
         word.append(ALPHA[r])
     # a listener that watches from the start, so that short histories are not all trivial
     # even indexes: a second listener with a filter watches from the start; odd: only the watch-all listener of the alphabet
-    pre = [{"op": "watch", "l": 1, "filter": [0x1000, 1, 1, 0xFFFFFFFF], "when": ["d", 0.01]}] if variant == 0 else []
+    pre = [{"op": "watch", "l": 1, "filter": [0x1000, 0x0101, 1, 0xFFFFFFFF], "when": ["d", 0.01]}] if variant == 0 else []
     return {"steps": pre + _alpha_steps(word)}
 
 
@@ -133,11 +133,11 @@ def fixed_cases(tier):
         {"steps": [w, o(INF), o(INF, "reset")]},                       # D1: reboot evidence + offer in one message
         {"steps": [w, o(1), o(1, when=["t", 0, "-q"])]},                # D1: offer in the iteration of the predecessor's expiry
         {"steps": [w, o(1), o(1, when=["t", 0, "+q"])]},
-        {"steps": [w, o(INF), dict(stop, when=["d", 0.1]), {"op": "watch", "l": 1, "filter": [0x1000, 1, 1, 0], "when": ["s"]}]},  # D9
+        {"steps": [w, o(INF), dict(stop, when=["d", 0.1]), {"op": "watch", "l": 1, "filter": [0x1000, 0x0101, 1, 0x10000], "when": ["s"]}]},  # D9
         {"steps": [w, o(INF), {"op": "unwatch", "l": 0, "when": ["d", 0.1]}, stop, dict(w, l=2)]},
         {"steps": [{"op": "watchall", "l": 0, "when": ["d", 0.01]}, o(INF), {"op": "unwatchall", "l": 0, "when": ["d", 0.1]}, stop,
                    {"op": "watchall", "l": 2, "when": ["d", 0.1]}]},  # D10: StopOffer while nobody watches
-        {"steps": [w, o(1), {"op": "watch", "l": 1, "filter": [0x1000, 1, 1, 0], "when": ["t", 0, "-q"]}]},  # D9: register in the iteration of an expiry
+        {"steps": [w, o(1), {"op": "watch", "l": 1, "filter": [0x1000, 0x0101, 1, 0x10000], "when": ["t", 0, "-q"]}]},  # D9: register in the iteration of an expiry
         {"steps": [w, o(INF), o(INF, s=1), o(INF, "reset", s=2)]},      # reboot: old A,B stopped before new C offered
     ]
 
